@@ -773,5 +773,9 @@ class C17Rerun(Monitor):
             return
         redone = {a.task for a in env.started[env.rerun_mark:]}
         for t in env.rerun_targets:
+            # a requested task that lies downstream of another requested task is re-executed when (and
+            # only if) control reaches it again: it "follows from" the upstream one
+            if t in descendants(env.wf, set(env.rerun_targets) - {t}):
+                continue
             if t not in redone:
                 self.fail(env, "requested-not-reexecuted", "C17 %s was requested for rerun but not executed again (re-executed: %s)" % (t, sorted(redone)), task=t)
